@@ -110,9 +110,14 @@ def oracle(case, out):
         def bad(x):
             return isinstance(x, str) and x != 'block'
         cause = any(bad(e.get('c_recv')) or bad(e.get('u_recv')) or bad(e.get('c_send')) or bad(e.get('u_send')) for e in out['events'])
+        # a descriptor reported readable with nothing to read (spurious wake-up): recv() raises, which the handler treats like
+        # any other failed recv (C01_teardown_has_cause: ClientRecvEnded / UpstreamRecvEnded) - a cause, not a spontaneous teardown
+        # (judged on the SCRIPTED events: only the generator's explicit spurious wake-ups count)
+        cause = cause or any(('client' in e0.get('r', ()) and 'c_recv' not in e0) or ('up0' in e0.get('r', ()) and 'u_recv' not in e0)
+                             for e0 in case['events'][:len(out['events'])])
         cause = cause or any(o['cdata'] == 'raise' or (isinstance(o['cdata'], (list, tuple)) and o['cdata'][0] == 'proto') or o['req'] == 'raise'
                              or (isinstance(o['req'], (list, tuple)) and o['req'][0] == 'error') for o in out['oracles'])
-        cause = cause or any(s.get('inactive') for s in steps) or case.get('exchange') == 'malformed-upstream'
+        cause = cause or case.get('exchange') == 'malformed-upstream'       # (the idle probe is no cause: nothing reaps in this driver)
         if not cause:
             return ('the proxy tore the established exchange down on its own: no peer closed or failed, nothing was rejected, the '
                     'connection was not idle - yet %d bytes the upstream was still going to send were never read (trace %s)'
